@@ -26,7 +26,14 @@ def generate(rng, tier, rep):
             opts.append(v)
         if rng.random() < 0.2:
             opts.append('-j2')
+        if rng.random() < 0.15:
+            # every way of showing or recording a failure has to cope with whatever exception object it is handed
+            opts.append(rng.choice(['--xml=xmlout', '-c', '-p']))
         c = worldcase.gen_world(rng, opts=opts)
+        if any(o in opts for o in ('--xml=xmlout', '-c', '-p')):
+            T = rng.choice(c['tests'])
+            if not T.get('deco_skip') and not T.get('xf'):
+                T[rng.choice(['body', 'setUp', 'tearDown'])] = 'error_odd:' + rng.choice(worldcase.ODD)
         for T in c['tests']:
             if rng.random() < 0.35 and not T.get('deco_skip'):
                 T.pop('xf', None)
